@@ -10,12 +10,20 @@
 (* Part = "machine": lifecycle (fresh / inhandler / midqueue / errored /      *)
 (*   setschema / disposed) x getters x MutateReturned x wait/ask helper       *)
 (*   scenarios x argument classes.                                            *)
+(* Part = "async": the async helpers step by step (ApiAlgebra Part 3b): every *)
+(*   entry point x every scenario (how / when the wait state is activated,    *)
+(*   plain / Multi, direct / queued / disposed, vetoed, ctx kind) x every     *)
+(*   interleaving of the helper's steps with the environment's; AsyncLaw is   *)
+(*   judged when the helper returns or can never return.  AsyncOrder is the   *)
+(*   order of the helper's first two steps ("bind-mutate" = the code).        *)
 (* Invariants: Inv_NoPanic, Inv_Law, Inv_Copy, Inv_Helper, Inv_Total.         *)
 (* With Fix = TRUE (repaired code) all hold; Predict (an ASSUME-time          *)
 (* evaluation, Part = "predict") lists what breaks with the code as found.    *)
 EXTENDS ApiAlgebra
 
-CONSTANTS Fix, Part, MaxLen, MaxLenVar, MaxVar, MaxQueue, Shared
+CONSTANTS Fix, Part, MaxLen, MaxLenVar, MaxVar, MaxQueue, Shared, AsyncOrder
+
+ASSUME AsyncOrder \in AsyncOrders
 
 VARIABLES call, verdict, m, held, phase
 
@@ -221,8 +229,29 @@ MachineNext ==
        WaitCall(fn, ch, cd)
   \/ \E cls \in ArgClasses : TotalCall(cls)
 
+---------------------------------------------------------------------------
+(* async helpers: one behaviour per (entry point, scenario, interleaving)     *)
+AsyncStart ==
+  /\ call = None
+  /\ \E fn \in AsyncFns, sc \in AsyncScenarios :
+       call' = [kind |-> "async", fn |-> fn, sc |-> sc, h |-> AsyncInit(AsyncOrder, sc)]
+  /\ verdict' = AllTrue
+  /\ UNCHANGED <<m, held, phase>>
+
+AsyncStep ==
+  /\ call # None /\ call.kind = "async"
+  /\ \E g \in AsyncSucc(AsyncOrder, call.sc, call.h) :
+       /\ call' = [call EXCEPT !.h = g]
+       /\ verdict' = IF g.pc = "done"
+                     THEN [AllTrue EXCEPT !.helper = AsyncLaw(call.sc, AsyncObs(g), g.ret)]
+                     ELSE AllTrue
+  /\ UNCHANGED <<m, held, phase>>
+
+AsyncNext == AsyncStart \/ AsyncStep
+
 MCInit == /\ call = None /\ verdict = AllTrue /\ m = M0 /\ held = None /\ phase = "fresh"
-MCNext == IF Part = "machine" THEN MachineNext ELSE AlgStep
+MCNext == IF Part = "machine" THEN MachineNext
+          ELSE IF Part = "async" THEN AsyncNext ELSE AlgStep
 MCSpec == MCInit /\ [][MCNext]_vars
 
 Inv_NoPanic == verdict.nopanic
@@ -250,8 +279,17 @@ PredictHelpers ==
   {fn \in HelperFns : \E d \in BOOLEAN, q \in BOOLEAN, p \in BOOLEAN :
      LET sc == [disposed |-> d, queued |-> q, possible |-> p]
      IN ~HelperLaw(fn, sc, HelperCode(FALSE, fn, sc))}
+(* the scenarios in which the law tells the other order of the helper's      *)
+(* steps (subscribe AFTER the mutation) from the code's                       *)
+AsyncBreaks(order) ==
+  {sc \in AsyncScenarios :
+     \E h \in AsyncReach(order, sc, AsyncInit(order, sc)) : ~AsyncLaw(sc, AsyncObs(h), h.ret)}
 Predict ==
   Part = "predict" =>
-    PrintT(<<"PREDICT", PredictAlg \cup PredictHelpers>>)
+    /\ PrintT(<<"PREDICT", PredictAlg \cup PredictHelpers>>)
+    /\ PrintT("PREDICTASYNC " \o ToString(<<Cardinality(AsyncBreaks("bind-mutate")),
+                                            Cardinality(AsyncBreaks("mutate-bind")),
+                                            Cardinality(AsyncScenarios),
+                                            {<<sc.via, sc.mode>> : sc \in AsyncBreaks("mutate-bind")}>>))
 ASSUME Predict
 =============================================================================
